@@ -77,6 +77,12 @@ impl<'a> TXT<'a> {
                 None => continue,
             };
 
+            // an empty string (how a TXT record without attributes is written) or a string
+            // starting with '=' has no key, RFC 6763 section 6.4 says it must be ignored
+            if key.is_empty() {
+                continue;
+            }
+
             let value = match splited.next() {
                 Some(value) if !value.is_empty() => match std::str::from_utf8(value) {
                     Ok(v) => Some(v.to_owned()),
